@@ -7,16 +7,16 @@
       re-armed after every message handed to the transport);
     * the endpoint itself gives up when it has received nothing for [L = max T 1ms] ([recv_task]:
       the timer is re-armed after every received message). *)
-From Remoc Require Import Lib.Base Chmux.Wire.
+From Remoc Require Import Lib.Base Gen.Consts Chmux.Wire.
 
 Definition MS : N := 1000000.
 
 (** announced timeout in nanoseconds *)
 Definition announced (t : N) : N := timeout_millis (Some t) * MS.
 (** ping interval of the peer *)
-Definition ping_interval (t : N) : N := announced t / 2.
+Definition ping_interval (t : N) : N := announced t / PING_DIVISOR.
 (** locally enforced timeout *)
-Definition enforced (t : N) : N := N.max t MS.
+Definition enforced (t : N) : N := N.max t (LOCAL_TIMEOUT_MIN_MS * MS).
 
 (** the peer's sending instants on an idle connection, [k]-th ping sent at [k * P] (it may send
     earlier, never later, if the sink is ready); a message sent at [s] is received at [s + d] with a
@@ -25,7 +25,7 @@ Definition max_gap (t jitter : N) : N := ping_interval t + jitter.
 
 Lemma announced_le_enforced t : t <= 18446744073709551615 * MS -> announced t <= enforced t.
 Proof.
-  unfold announced, enforced, timeout_millis, NS_PER_MS, U64_MAX, MS. intros H.
+  unfold announced, enforced, timeout_millis, NS_PER_MS, U64_MAX, MS, LOCAL_TIMEOUT_MIN_MS. intros H.
   destruct (N.le_gt_cases 1 (t / 1000000)) as [H1|H1].
   - assert (N.max 1 (N.min (t / 1000000) 18446744073709551615) = t / 1000000) as -> by lia. lia.
   - assert (N.max 1 (N.min (t / 1000000) 18446744073709551615) = 1) as -> by lia. lia.
@@ -36,7 +36,7 @@ Qed.
 Theorem idle_never_times_out t jitter :
   t <= 18446744073709551615 * MS -> 2 * jitter < enforced t -> max_gap t jitter < enforced t.
 Proof.
-  intros Ht Hj. pose proof (announced_le_enforced t Ht) as Ha. unfold max_gap, ping_interval. lia.
+  intros Ht Hj. pose proof (announced_le_enforced t Ht) as Ha. unfold max_gap, ping_interval, PING_DIVISOR. lia.
 Qed.
 
 (** a silent transport is noticed: the dispatcher's timer fires at most [enforced t] after the last
